@@ -86,6 +86,11 @@ GEN[("C01", "thorough")] = GEN[("C01", "quick")] + [("basic", ["P:A", "R:A"], 1,
 # a second Special firing that names the chord already repeating, with its own timings
 GEN[("C09", "quick")] = [("basic", ["P:S", "R:S", "R:A"], 3, 0, 2, 0), ("twodelay", ["P:B", "P:D", "P:A"], 2, 0, 3, 0)]
 GEN[("C09", "thorough")] = [("basic", ["P:S", "R:S", "R:A", "P:A"], 4, 0, 2, 0), ("twodelay", ["P:B", "P:D", "P:A", "R:B"], 3, 0, 3, 0), ("norep", ["P:LEFTSHIFT", "P:S", "P:S", "R:D"], 4, 0, 2, 0)]
+# C02 and C19 at the loop: what is down on the device (the fold of the writes that succeeded), with injected write failures
+GEN[("C02", "quick")] = [("basic", ["P:A", "R:A", "P:Z"], 3, 0, 0, 0), ("shiftchord", ["P:LEFTSHIFT", "P:A", "R:LEFTSHIFT"], 3, 1, 0, 0)]
+GEN[("C02", "thorough")] = [("basic", ["P:A", "R:A", "P:Z", "R:Z"], 4, 1, 0, 0), ("shiftchord", ["P:LEFTSHIFT", "P:A", "R:LEFTSHIFT", "R:A"], 4, 1, 0, 0), ("norep", ["P:LEFTSHIFT", "P:A", "R:A"], 3, 0, 0, 0)]
+GEN[("C19", "quick")] = GEN[("C02", "quick")]
+GEN[("C19", "thorough")] = GEN[("C02", "thorough")]
 # C14 at the loop (see ALIAS): boundary repeat timings with timer expiries
 # (negative timings are left out: with a negative delay the loop asks for a time-out of 2^64 - 5 ms, i.e. never repeats; not a panic, and outside what C11 quantifies over)
 GEN[("C14", "quick")] = [("zerorep", ["P:B", "P:A", "R:B"], 2, 0, 2, 0)]
@@ -104,10 +109,14 @@ SIM = {
     "C01": [],
     "C14": [],
     "C09": [],
+    "C02": [],
+    "C19": [],
 }
+# properties whose loop-level runs include injected failures (what is down on the device after a write failure that the loop survives)
+FAULT_PROPS = ("C01", "C02", "C06", "C12", "C19")
 INVARIANTS = ["NoLostWakeup", "SendsAreMapperOutputs", "QuietInTabletMode", "HeldMatches", "ReleasedInTablet", "ChordsAreTransient", "StopsOnFailure", "EmitSchedule"]
 # registers of LoopTrace that must be non-zero for a run of the property to be non-vacuous
-NEED = {"C10": [4, 8], "C11": [3, 6], "C12": [5, 9, 10], "C20": [7], "C06": [5, 10], "C18": [4, 5], "C01": [4, 8], "C14": [4], "C09": [3, 6]}
+NEED = {"C10": [4, 8], "C11": [3, 6], "C12": [5, 9, 10], "C20": [7], "C06": [5, 10], "C18": [4, 5], "C01": [4, 8], "C14": [4], "C09": [3, 6], "C02": [4, 7], "C19": [4, 7]}
 REGS = ["traces", "drifts", "chords_judged", "step_sends_judged", "releaseall_sends_judged", "timed_polls_judged", "failing_calls_judged",
         "polls_with_unread_events_queued", "key_events_read_in_tablet_mode", "tablet_on_with_keys_held"]
 
@@ -437,6 +446,9 @@ ALIAS = {# C09 at the loop ("a step asks the event loop to start repeating exact
          # key press or release that the mapper acts on cancels repeating; events it ignores leave the repeat state unchanged"): what the loop does with the
          # requests - a chord although the repeat was cancelled, no chord / no timer although one was requested, another chord or timing than the fired mapping's
          "C09": {"C11-chord-at-wrong-time", "C11-chord-missing", "C11-repeat-without-timer", "C11-repeat-not-as-listed-in-the-layout", "C11-timeout-off-schedule"},
+         # C02 / C19 at the device (own prefixes; listed for the evidence)
+         "C02": {"C02-key-down-on-the-virtual-keyboard-while-waiting-without-justification"},
+         "C19": {"C19-redundant-event-written-to-the-device"},
          # C01 at the loop ("whenever no physical key is held, no key is held on the virtual keyboard"), judged each time the loop goes back to waiting
          "C01": {"C01-keys-held-while-waiting-although-every-key-was-released"},
          # C14 at the loop ("every layout that loading accepts can be ... driven with any sequence of key events without panicking"): the loop
@@ -526,6 +538,14 @@ def variants(prop, tier, cases):
         step = max(1, len(cases) // (400 if tier == "quick" else 6000))
         out = [dict(c, faults="all") for c in cases[::step]]
         out += [dict(c, faults="all") for c in big_batch_cases()[:1 if tier == "quick" else 3]]
+    if prop in FAULT_PROPS:
+        # every call of a sample of the schedules fails in turn, and once a write has failed every later write fails as well (a consumer that stays
+        # stalled): HEAD returns at the failure; a loop or writer that swallows it goes on with keys down on the device that nothing will lift
+        # (the clauses about what is DOWN ON THE DEVICE: C01-keys-held-while-waiting..., C02-key-down-on-the-virtual-keyboard..., C12-keys-down-on-the-
+        # virtual-keyboard-while-waiting-in-tablet-mode, C19-redundant-event-written-to-the-device)
+        pool = [c for c in cases if any(l["a"] == "arrK" and l["t"] == "R" for l in c["sched"]) or any(l["a"] == "arrT" for l in c["sched"])] or cases
+        step = max(1, len(pool) // (120 if tier == "quick" else 1200))
+        out += [dict(c, id=c["id"] + "-flt", faults="all") for c in pool[::step]]
     if prop in ("C10", "C18"):
         out += big_batch_cases()
     out += scenario_cases(prop)
